@@ -257,6 +257,59 @@ func genTransient(r *rand.Rand) caseSpec {
 	return cs
 }
 
+// genErrPath: Consumer.Return.Errors with a tiny channel buffer, the leader answers some fetches with a partition-level
+// error that the consumer reports to the user, the application reads Errors() or not, then one of the five session-end
+// causes. The life-cycle must complete either way.
+func genErrPath(r *rand.Rand) caseSpec {
+	cs := caseSpec{Retries: 1, HbRetries: 1, Attempts: 2, InitialOldest: true, Close: true, Leave: "ok",
+		ReturnErrors: true, ChanBuf: r.Intn(2), ReadErrors: r.Intn(2) == 0}
+	np := 1 + r.Intn(2)
+	for p := 0; p < np; p++ {
+		lo := int64(0)
+		hi := lo + 2 + int64(r.Intn(8))
+		st := int64(-1)
+		if r.Intn(2) == 0 {
+			st = lo + int64(r.Intn(int(hi-lo)))
+		}
+		cs.Parts = append(cs.Parts, partSpec{Topic: 0, P: p, Oldest: lo, Newest: hi, Stored: st})
+	}
+	c := callSpec{SetupOK: true, CleanupOK: true}
+	for _, p := range cs.Parts {
+		c.Plan = append(c.Plan, p.id())
+		c.Beh = append(c.Beh, behSpec{P: p.id(), Quota: -1, Mark: r.Intn(3)})
+	}
+	w := [][2]int{{0, 1}, {1, 2}, {0, 2}, {1, 3}, {0, 3}}[r.Intn(5)]
+	c.FetchErrs = []faultSpec{{P: c.Plan[r.Intn(len(c.Plan))], From: w[0], To: w[1]}}
+	switch r.Intn(6) {
+	case 0:
+		c.Trigger = "ctx-steady"
+	case 1:
+		c.Trigger, c.Hbs = "hb-steady", []string{"rebalance"}
+	case 2:
+		c.Trigger, c.Hbs = "hb-steady", []string{pick(r, []string{"unknown", "illegal"})}
+	case 3:
+		c.Trigger = "close-steady"
+	case 4:
+		c.Trigger = "part-steady"
+	default: // a claim ends: one handler returns after two records
+		c.Trigger = "none"
+		start := cs.Parts[0].Stored
+		if start < 0 {
+			start = cs.Parts[0].Oldest
+		}
+		q := int(cs.Parts[0].Newest - start) // what the log holds from the start offset (>= 1)
+		if q > 2 {
+			q = 2
+		}
+		c.Beh[0].Quota = q
+		if c.Beh[0].Mark > q {
+			c.Beh[0].Mark = q
+		}
+	}
+	cs.Calls = []callSpec{c}
+	return cs
+}
+
 // enumerated coordinator scripts: every sequence of length <= maxLen over the join verdict classes, each
 // followed by the default (ok) answers, combined with a sync script of the remaining length.
 func enumScripts(maxLen int) [][2][]string {
